@@ -663,12 +663,15 @@ impl C20 {
                         std::ptr::null_mut(),
                     ),
                 ];
-                for (name, a, b, c2, d) in cases {
-                    let r = catch_sut(|| unsafe { maybenot_on_events(a, b, 1, c2, d) as u32 });
-                    match r {
-                        Ok(4) => {}
-                        Ok(x) => v.push(("null-on-events".into(), format!("maybenot_on_events with a null {name} pointer returned {x}, expected 4"))),
-                        Err(p) => v.push((panic_class(&p), format!("maybenot_on_events with a null {name} pointer panicked: {p}"))),
+                // every null pointer, with a batch of one event and with an empty batch
+                for nev in [1usize, 0] {
+                    for (name, a, b, c2, d) in cases {
+                        let r = catch_sut(|| unsafe { maybenot_on_events(a, b, nev, c2, d) as u32 });
+                        match r {
+                            Ok(4) => {}
+                            Ok(x) => v.push(("null-on-events".into(), format!("maybenot_on_events with a null {name} pointer and {nev} event(s) returned {x}, expected 4"))),
+                            Err(p) => v.push((panic_class(&p), format!("maybenot_on_events with a null {name} pointer and {nev} event(s) panicked: {p}"))),
+                        }
                     }
                 }
                 if count != 77 {
